@@ -409,8 +409,22 @@ func (x *Exec) siteAsserts(st *State, fr *Frame, site string, pos token.Pos) {
 }
 
 func (x *Exec) siteAssertsWith(st *State, fr *Frame, site string, pos token.Pos, extra map[string]*Val) {
-	if x.FC == nil || len(st.Frames) != 1 {
+	if x.FC == nil {
 		return
+	}
+	if len(st.Frames) != 1 {
+		// sites inside closures of the function under contract (deferred closures inlined into it) count too;
+		// the assertion is evaluated over the enclosing function's variables
+		for _, f := range st.Frames[1:] {
+			p := f.Fn.Parent()
+			for p != nil && p != x.Fn {
+				p = p.Parent()
+			}
+			if p != x.Fn {
+				return
+			}
+		}
+		fr = st.Frames[0]
 	}
 	k := x.site(st, "site:"+site)
 	for _, cl := range x.FC.Of("assert") {
@@ -453,7 +467,11 @@ func (x *Exec) calleeEnv(st *State, callee *ssa.Function, args []*Val, freeVars 
 	}
 	for k, fv := range callee.FreeVars {
 		if k < len(freeVars) {
-			env.Vars["&"+fv.Name()] = freeVars[k]
+			if freeVars[k].Cell != nil {
+				env.Vars["&"+fv.Name()] = freeVars[k]
+			} else {
+				env.Vars[fv.Name()] = freeVars[k] // captured struct variable: the name denotes the object
+			}
 		}
 	}
 	return env
@@ -466,6 +484,11 @@ func (x *Exec) applyContract(st *State, fr *Frame, dst ssa.Value, callee *ssa.Fu
 	}
 	k := x.site(st, "call:"+name)
 	x.siteAsserts(st, fr, "call:"+name, pos)
+	for _, cl := range fc.Of("ghost") {
+		if strings.HasPrefix(cl.Text, "label ") {
+			x.siteAsserts(st, fr, "call:"+strings.TrimSpace(strings.TrimPrefix(cl.Text, "label ")), pos)
+		}
+	}
 	env := x.calleeEnv(st, callee, args, freeVars)
 	for _, cl := range fc.Of("requires") {
 		g := x.V.evalBool(env, cl.E)
@@ -712,6 +735,16 @@ func (x *Exec) modItems(env *Env, cl *Clause) []modItem {
 			inner := it[6 : len(it)-1]
 			parts := strings.SplitN(inner, ".", 2)
 			ns := x.V.namedByName(env.Pkg.Name() + "." + parts[0])
+			if ns == nil && len(parts) == 2 {
+				// package-qualified: field(pkg.T.f)
+				p3 := strings.SplitN(inner, ".", 3)
+				if len(p3) == 3 {
+					if n2 := x.V.namedByName(p3[0] + "." + p3[1]); n2 != nil {
+						ns = n2
+						parts = []string{p3[1], p3[2]}
+					}
+				}
+			}
 			if ns == nil || len(parts) != 2 {
 				unsupportedf("modifies %s: unknown type", it)
 			}
@@ -1542,6 +1575,15 @@ func (x *Exec) staticModFamilies(callee *ssa.Function, cl *Clause, fams map[stri
 			inner := it[6 : len(it)-1]
 			parts := strings.SplitN(inner, ".", 2)
 			ns := x.V.namedByName(pkg.Name() + "." + parts[0])
+			if ns == nil && len(parts) == 2 {
+				p3 := strings.SplitN(inner, ".", 3)
+				if len(p3) == 3 {
+					if n2 := x.V.namedByName(p3[0] + "." + p3[1]); n2 != nil {
+						ns = n2
+						parts = []string{p3[1], p3[2]}
+					}
+				}
+			}
 			if ns == nil || len(parts) != 2 {
 				return false
 			}
